@@ -1,8 +1,66 @@
 import Driver.Codec
+import LopdfModel.Model.Write
+import LopdfModel.Model.Parse
+import LopdfModel.Model.File
 namespace Lopdf.Driver.C01
 open Lopdf Lopdf.Codec
 
-/-- protocol operations of property C01: `none` = not an operation of this property. -/
-def handle (op : String) (args : List String) : Option String := none
+/-- `write_obj <obj>` -> `ok <hex>` ;  `parse_obj <hex>` -> `ok <consumed> <obj>` | `err` -/
+def handle (op : String) (args : List String) : Option String :=
+  match op with
+  | "write_obj" =>
+    some <| match parseObj args with
+    | some (o, []) => "ok " ++ hexTok (writeObj o)
+    | _ => "bad-op"
+  | "write_ind" =>
+    some <| match args with
+    | a :: b :: rest =>
+      match a.toNat?, b.toNat?, parseObj rest with
+      | some n, some g, some (o, []) => "ok " ++ hexTok (writeIndirect n g o)
+      | _, _, _ => "bad-op"
+    | _ => "bad-op"
+  | "save" =>
+    -- save table|stream <maxId> <version-hex> <mark-hex> <trailer> <k> (<num> <gen> <obj>)*
+    some <| match args with
+    | kind :: mx :: ver :: mark :: rest =>
+      match mx.toNat?, bytesOfHex ver, bytesOfHex mark, parseObj rest with
+      | some maxId, some version, some bm, some (.dict tr, k :: rest') =>
+        match k.toNat?.bind (fun k => parseObjects k rest') with
+        | some (os, []) =>
+          let d : SDoc := { version := version, binaryMark := bm, trailer := tr, objects := os, maxId := maxId,
+                            xrefKind := if kind = "stream" then .stream else .table }
+          match saveDoc d with
+          | some (bytes, d') => "ok " ++ hexTok bytes ++ " " ++ toString d'.maxId ++ " " ++ showObj (.dict d'.trailer)
+          | none => "err"
+        | _ => "bad-op"
+      | _, _, _, _ => "bad-op"
+    | _ => "bad-op"
+  | "save_incr" =>
+    -- save_incr table|stream <maxId> <version-hex> <mark-hex> <prev-hex> <trailer> <k> (<num> <gen> <obj>)*
+    some <| match args with
+    | kind :: mx :: ver :: mark :: prev :: rest =>
+      match mx.toNat?, bytesOfHex ver, bytesOfHex mark, bytesOfHex prev, parseObj rest with
+      | some maxId, some version, some bm, some pv, some (.dict tr, k :: rest') =>
+        match k.toNat?.bind (fun k => parseObjects k rest') with
+        | some (os, []) =>
+          let d : SDoc := { version := version, binaryMark := bm, trailer := tr, objects := os, maxId := maxId,
+                            xrefKind := if kind = "stream" then .stream else .table }
+          match saveIncr pv d with
+          | some (bytes, d') => "ok " ++ hexTok bytes ++ " " ++ toString d'.maxId ++ " " ++ showObj (.dict d'.trailer)
+          | none => "err"
+        | _ => "bad-op"
+      | _, _, _, _, _ => "bad-op"
+    | _ => "bad-op"
+  | "parse_obj" =>
+    some <| match args with
+    | [h] =>
+      match bytesOfHex h with
+      | some bs =>
+        match parseDirect bs with
+        | some (o, rest) => "ok " ++ toString (bs.length - rest.length) ++ " " ++ showObj o
+        | none => "err"
+      | none => "bad-op"
+    | _ => "bad-op"
+  | _ => none
 
 end Lopdf.Driver.C01
